@@ -3,6 +3,7 @@
 package main
 
 import (
+	"sort"
 	"fmt"
 	"os"
 	"reflect"
@@ -75,6 +76,7 @@ func main() {
 	e := &simrun.Engine{Name: "B-tasks"}
 	e.Init = func(p map[string]string) error {
 		corpus = append(corpus, rndcorpus.Messages...)
+		corpus = append(corpus, discoverTypes()...)
 		if gr := os.Getenv("GORACE"); strings.Contains(gr, "log_path=") {
 			for _, kv := range strings.Fields(gr) {
 				if strings.HasPrefix(kv, "log_path=") {
@@ -122,6 +124,37 @@ var infoByType map[reflect.Type]*protoimpl.MessageInfo
 // infoOf finds the MessageInfo that the generated package registered for the
 // Go type of m, without calling any method of the generated type (so that
 // state the generated code initialises lazily on first use stays untouched).
+// discoverTypes lists every other generated message type of this module that
+// is linked into the binary (nested types, field-less types, the small helper
+// messages of the checked-in packages ...), in name order. The instances are
+// made with reflect.New: no generated code runs for them here.
+func discoverTypes() []proto.Message {
+	have := map[reflect.Type]bool{}
+	for _, m := range corpus {
+		have[reflect.TypeOf(m)] = true
+	}
+	var infos []*protoimpl.MessageInfo
+	protoregistry.GlobalTypes.RangeMessages(func(mt protoreflect.MessageType) bool {
+		mi, ok := mt.(*protoimpl.MessageInfo)
+		if !ok || mi.GoReflectType == nil || mi.Desc == nil || have[mi.GoReflectType] {
+			return true
+		}
+		if !strings.HasPrefix(mi.GoReflectType.Elem().PkgPath(), "github.com/cosmos/cosmos-proto/") {
+			return true
+		}
+		infos = append(infos, mi)
+		return true
+	})
+	sort.Slice(infos, func(i, j int) bool { return infos[i].Desc.FullName() < infos[j].Desc.FullName() })
+	var out []proto.Message
+	for _, mi := range infos {
+		if m, ok := reflect.New(mi.GoReflectType.Elem()).Interface().(proto.Message); ok {
+			out = append(out, m)
+		}
+	}
+	return out
+}
+
 func infoOf(m proto.Message) *protoimpl.MessageInfo {
 	if infoByType == nil {
 		infoByType = map[reflect.Type]*protoimpl.MessageInfo{}
